@@ -70,13 +70,17 @@ def check(run):
         path = os.path.join(wd, "blob-%d.db" % u)
         c = sqlfmt.new_db(path, u)
         c.execute("CREATE TABLE t(a, b)")
-        sizes = [0, 1, 100, u // 3, u - 40, u - 35 - 8, 6000 if u > 8192 else 300, 20000]
+        sizes = [0, 1, 100, u // 3, u - 40, u - 35 - 8, 6000 if u > 8192 else 300, 20000, 5 * u + 1, u + 50, 3 * u, 2 * u + 7, u + 9]    # several overflowing ones, not in order of size
         for n, sz in enumerate(sizes):
             c.execute("INSERT INTO t VALUES(?, ?)", (n, bytes([(n * 7 + i) % 251 for i in range(sz)])))
         c.execute("INSERT INTO t VALUES(?, ?)", (100, "text" * 50))
+        # the same placements as TEXT (a scanned string, like a scanned []byte, is the caller's own)
+        c.execute("CREATE TABLE s(a, b TEXT)")
+        for n, sz in enumerate(sizes):
+            c.execute("INSERT INTO s VALUES(?, ?)", (n, "".join(chr(97 + (n * 7 + i) % 26) for i in range(sz))))
         c.close()
-        for pager in ("db", "fopen"):
-            seq = [("open", "%s %s" % (pager, path)), ("m", "scanmut t b")]
+        for pager, tab in (("db", "t"), ("fopen", "t"), ("db", "s"), ("fopen", "s")):
+            seq = [("open", "%s %s" % (pager, path)), ("m", "scanmut %s b" % tab)]
             r3, i3, _ = ops.run_cmds("c18-alias", seq, sides=("impl",), timeout=300)
             out = i3.get("m") or ["?"]
             run.count(); alias += 1
